@@ -771,7 +771,7 @@ func r06EveryHelperRoutes(c *core.Ctx, p *load.Program, rule string) {
 				fallsBackToOpen = true
 			}
 			// or to another helper of the package with the same file system (Create -> OpenFile), which routes itself
-			if callee := ssax.StaticCallee(cl); callee != nil && callee != fn && callee.Pkg == fn.Pkg && callee.Signature.Recv() == nil && len(cl.Call.Args) > 0 && cl.Call.Args[0] == ssa.Value(fn.Params[0]) {
+			if callee := ssax.StaticCallee(cl); callee != nil && callee != fn && callee.Pkg == fn.Pkg && callee.Signature.Recv() == nil && callee.Object() != nil && callee.Object().Exported() && len(cl.Call.Args) > 0 && cl.Call.Args[0] == ssa.Value(fn.Params[0]) {
 				fallsBackToOpen = true
 			}
 		})
